@@ -17,7 +17,7 @@ CHECKS = {
          'every node of small trees, payload lengths around 16/32/4096/512Ki/1Mi, push-then-reply. Each encoding is read through bufio readers of 32 and 4096 bytes with every single split point '
          '(<= 64 bytes; token boundaries +-1, payload interiors and seeded split sets beyond), byte-wise, and through fakeredis/bufconn chunking; the decoded tree (raw RedisMessage fields incl. attrs) must equal Expected, '
          'a sentinel message behind the reply must decode next (exact consumption), and streamTo must write exactly the payload / integer text, return Nil or the RedisError, skip pushes and attributes.',
-    design_ref='DESIGN.md 4.7, 5 C12; proposed/design_resp.md',
+    design_ref='DESIGN.md 4.7, 5 C12; design/resp.md',
     note='Trusted: TLC, the driver\'s token expansion (decimal rendering, filler bytes), the export wrapper VerifTreeOf. Bounded: trees <= 4-5 nodes, depth <= 3, payload classes not all bytes; '
          'numeric accuracy of doubles is not examined (text only). Pipe-level delivery (real client) is not part of this check.'),
  'C13': dict(
@@ -38,13 +38,13 @@ CHECKS = {
     text=_COMMON + 'C14: 229 command sequences (thorough 241): argument counts {1,2,9,10,11,99,100,101,999,1000,1001} (thorough up to 1e5), argument lengths at every decimal digit boundary up to 1e7+1, '
          'contents empty / CR / LF / CRLF / NUL / 0xFF / protocol look-alikes, two commands in a row. The bytes written by writeCmd and flushCmd through bufio writers of 16, 64, 4096 and 512Ki bytes must equal the expansion of EncodeCmd '
          'and decode with fakeredis.ReadCommand to the same argv with nothing left over; sequences <= 4 MiB are also sent with DoMulti through a real client (AlwaysPipelining, _backgroundWrite) to the fake server, whose parser must receive the same argv.',
-    design_ref='DESIGN.md 5 C14; proposed/design_resp.md',
+    design_ref='DESIGN.md 5 C14; design/resp.md',
     note='Trusted: fakeredis codec (independent implementation), strconv for the decimal expansion of lengths. Argument lengths above 1e7+1 and counts above 1e5 are not generated.'),
  'C17': dict(
     level='exploration', technique='TLA+ value trees x expiry classes (Resp.tla / RespGen.tla), TLC as case generator, real CacheMarshal / CacheUnmarshalView / CacheSize',
     text=_COMMON + 'C17: all trees with <= 4 nodes (thorough 5) over arrays, sets, maps (fixed and streamed on the wire) and 4 leaf kinds, every scalar type in 4 contexts (2.6k replies) x expiry {0, 1, now, 2^55, 2^56-1}. '
          'The reply is produced by the real decoder, given the expiry, marshalled; len = CacheSize, marshalling into a provided buffer appends the same bytes, CacheUnmarshalView reconstructs Expected(tree), expiry (raw and CachePXAT) and the cache-hit mark, '
          'and every strict prefix of the buffer yields ErrCacheUnmarshal without panic.',
-    design_ref='DESIGN.md 5 C17; proposed/design_resp.md',
+    design_ref='DESIGN.md 5 C17; design/resp.md',
     note='Attributes and push frames are not cacheable and not generated; corrupted (not merely truncated) buffers are outside the property.'),
 }
